@@ -176,7 +176,7 @@ PROPS = {
                       "stage's overrides - no key private to another stage, no other stage's value - and the task's own settings "
                       "must be unchanged afterwards; repeated runs; in-process (recording Runner owns nothing but observes the "
                       "task object) and through the binary (values echoed by the commands, pwd -P); part real runs the shared-task "
-                      "API arrangement on the real runner with the task dir written as a template over a variable that stages override. The keys that tasks and stages set include names the runner maintains itself (ARGS, TASK_NAME, variable Args); every real execution prints them and the expectation carries the runner's defaults. In the cli part some of the names are already defined in the environment taskctl is started with. In part real some stage objects carry a Dir of their own: whatever that stage sees, the shared task and the other executions must not. The shared task may run in a named context with before and after commands (cli, real).",
+                      "API arrangement on the real runner with the task dir written as a template over a variable that stages override. The keys that tasks and stages set include names the runner maintains itself (ARGS, TASK_NAME, variable Args); every real execution prints them and the expectation carries the runner's defaults. In the cli part some of the names are already defined in the environment taskctl is started with. In part real some stage objects carry a Dir of their own: whatever that stage sees, the shared task and the other executions must not. The shared task may run in a named context with before and after commands (cli, real). In a third of the api and real cases some stages end in a failure their stage allows (the recording Runner returns an error, the real command exits 3): what such a stage laid over the shared task must be gone afterwards just as after a success.",
         "level_note": "Overlap of concurrent stages at the binary level is provoked by sleep durations, not enumerated.",
         "rule": "api: rapid cases (task env/vars over 4+3 keys each present with p=1/3, stages with own subsets, arrangement drawn, "
                 "second pipeline, direct run, 1..2 repetitions); cli: the same plus stage/task dir. Non-trivial = >= 2 stages share the "
@@ -244,7 +244,7 @@ PROPS = {
                       "TempDir, Args, ArgsList and $ARGS (with and without `--`). Argument vectors of up to 5 words (target-like, "
                       "k=v, -x, --set, --, -c ...) after `--` must arrive verbatim and in order and never run as targets (marker "
                       "tasks named like every word). An undefined reference at every command position (and in dir) of 1..4-command "
-                      "tasks: commands before it ran, it and later ones did not, exit status non-zero. In two thirds of the cases a second variable y is defined at its own drawn subset of the four levels, so command lines carry two --set flags in either order. The argument alphabet includes words with blanks or tabs and the empty word (.ArgsList must keep the word boundaries). A task variable is a template over x, and stage cases run `pp tk`: the pipeline and the direct run resolve the same texts against their own variables. The undefined reference may sit in the task's condition.",
+                      "tasks: commands before it ran, it and later ones did not, exit status non-zero. In two thirds of the cases a second variable y is defined at its own drawn subset of the four levels, so command lines carry two --set flags in either order. The argument alphabet includes words with blanks or tabs and the empty word (.ArgsList must keep the word boundaries). A task variable is a template over x, and stage cases run `pp tk`: the pipeline and the direct run resolve the same texts against their own variables. The undefined reference may sit in the task's condition. In half of the stage cases with x at the stage level the pipeline holds a second, independent stage of the same task that gives the same names other values and runs at the same time (a sleep keeps both in flight): each stage must render its own values (x, y and the templated task variable).",
         "level_note": "Words are shell-safe (the harness passes argv directly, no shell involved).",
         "rule": "vars: rapid (mode, dash, <=3 words, value permutation) then all subsets; args: rapid; undefined: full enumeration. "
                 "Non-trivial = >= 2 levels present (vars); >= 2 words of which one is target-like / starts with '-' / has '=' (args); "
@@ -327,7 +327,7 @@ PROPS = {
                       "appends a token to one trace file. Per context: exactly one `up` before every other token; failing `up` => no "
                       "task command and every Run errors; #before = #after = executions, and in every prefix #before >= #started tasks "
                       "and #after <= #ended tasks; sequential runs strictly before, task, after; exactly one `down` after everything, "
-                      "none for unused contexts, also when a CLI target failed. In the cli part a target is a task run directly or a pipeline of 1..3 consecutive tasks chained by depends_on, mixed on one command line. Any of a context's four hook lists may be absent (drawn); `down` is due whenever the context was used, whether or not it has `up` commands. Part watch: a watcher's start-up run and 1..3 event runs each execute inside the context's before/after, up once. A drawn subset of the contexts has a failing down command.",
+                      "none for unused contexts, also when a CLI target failed. In the cli part a target is a task run directly or a pipeline of 1..3 consecutive tasks chained by depends_on, mixed on one command line. Any of a context's four hook lists may be absent (drawn); `down` is due whenever the context was used, whether or not it has `up` commands. Part watch: a watcher's start-up run and 1..3 event runs each execute inside the context's before/after, up once. A drawn subset of the contexts has a failing down command. Modes cancel-up and cancel-before (two of seven api modes) cancel the runner while a context's up command or a context before hook is still running and then finish it: up and down at most once and bracketing everything else, nothing after a failed up, and every before hook that ran is paired with an after hook.",
         "level_note": "A task skipped by its own condition may or may not count as an execution for before/after; `down` after a failed "
                       "`up` may or may not run (statement silent).",
         "rule": "rapid cases; non-trivial = >= 2 tasks share a context in a concurrent mode, or a task has a hook/condition, or `up` fails; "
